@@ -24,7 +24,7 @@ From Coq Require Import List String Bool PrimFloat Permutation.
 From Verif Require Import Base.Sexp Spec.Grammar Spec.Faithful Proofs.C01_Defs.   (* before C03_Defs: its names win *)
 From Verif Require Import Base.Result Base.Str Base.PyDict Model.Types Model.Domain Model.Exec Spec.Pddl
   Proofs.C03_Spec Proofs.C03_Defs Proofs.C03_Refine Proofs.C03_Main Proofs.C03_Inner Proofs.C03_Examples
-  Corr.Core Proofs.C03_Judge Proofs.C03_Closed Proofs.C03_Parsed.
+  Corr.Core Proofs.C03_Judge Proofs.C03_Closed Proofs.C03_Parsed Proofs.C03_Seq.
 Import ListNotations.
 
 (* C03_successor.  For EVERY visiting order of the effect groups and of the universal effects the model returns a
@@ -292,7 +292,47 @@ Theorem C03_successor_parsed : forall num e (m : mdomain) sd n (ma : maction),
                   state_eq s' (successor eps (d_types m) objs sa args s)).
 Proof. exact successor_parsed. Qed.
 
+(* ---------- call sequences on one grounded action (one Operator object) ----------
+   model_chain s allows = what k = |allows| calls of apply return, each call applied to the state the previous call
+   returned (to the state that call was given when it refused); allows = the allow_inapplicable_actions flag of each call.
+   spec_chain = PDDL: Some successor when the call is applicable or forced, None (an error) otherwise.
+   chain_hyps = at the states the model's chain visits: the library's applicability test answers as PDDL says (this is
+   the statement of C02, taken as a premise here), visiting the groups raises nothing, the firing effects are consistent.
+   step_rel r o: r = Ok s' and o = Some t' with state_eq s' t', or r = Err EValue (ValueError) and o = None.
+   The model keeps nothing between two calls - that the library's Operator object does not either is what the
+   correspondence check tests with the same sequences (Corr/C03.v seq3; seeded change C03_A). *)
+Theorem C03_repeated_application :
+  forall (d : mdomain) (eps : float) (a : maction) (effs : list eff) (args : list string) (ga : gaction)
+         (objs : objects) (order uorder : list nat),
+    denote_effs a = Some effs -> names_ok d a = true -> ground_action d a args = Ok ga ->
+    is_order order (List.length (ga_groups ga)) -> is_order uorder (List.length (ma_univ a)) ->
+    forall (allows : list bool) (s t : state),
+      state_eq s t -> chain_hyps d eps args ga objs order uorder (spec_action a effs) s allows ->
+      Forall2 step_rel (model_chain d eps ga objs order uorder s allows)
+                       (spec_chain d eps args objs (spec_action a effs) t allows).
+Proof. exact chain_refines. Qed.
+
+(* the hypotheses are satisfiable: (increase (ticks) 1), a 'when' and a 'forall-when' that READ (ticks); four calls -
+   applicable, applicable (forced flag irrelevant), refused ((ticks) = 2: ValueError), forced; every condition and
+   right-hand side reads the value (ticks) had BEFORE its call *)
+Theorem C03_repeated_application_example :
+  chain_hyps tk_dom ex_eps tk_args tk_ga tk_objs [1; 0] [0] (spec_action tk_act tk_effs) tk_state tk_allows /\
+  map (fun r => match r with
+                | Ok s => Some (fluent_get ("ticks", []) (fluents s), fluent_get ("stamp", ["a"]) (fluents s),
+                                fluent_get ("stamp", ["b"]) (fluents s), atom_in ("running", ["w1"]) (facts s))
+                | Err _ => None end)
+      (model_chain tk_dom ex_eps tk_ga tk_objs [1; 0] [0] tk_state tk_allows)
+  = [Some (Some 1%float, Some 0%float, Some 7%float, true);
+     Some (Some 2%float, Some 1%float, Some 7%float, false);
+     None;
+     Some (Some 3%float, Some 2%float, Some 7%float, false)] /\
+  Forall2 step_rel (model_chain tk_dom ex_eps tk_ga tk_objs [1; 0] [0] tk_state tk_allows)
+                   (spec_chain tk_dom ex_eps tk_args tk_objs (spec_action tk_act tk_effs) tk_state tk_allows).
+Proof. exact (conj tk_hyps (conj (proj1 tk_chain) tk_refines)). Qed.
+
 Print Assumptions C03_successor.
+Print Assumptions C03_repeated_application.
+Print Assumptions C03_repeated_application_example.
 Print Assumptions C03_parsed_denotes.
 Print Assumptions C03_same_effects_same_successor.
 Print Assumptions C03_successor_parsed.
